@@ -2,14 +2,16 @@
    case = (tree recfm lrecl envs counters records blocking image schema run)
      tree     abstract record description the generator built (wire form: JLayoutCommon)
      recfm    0 = RECFM_N, 1 = RECFM_V, 2 = RECFM_VB, 3 = RECFM_F (every record padded to lrecl bytes in the file)
-     lrecl    (0) = None | (1 n): what the runner passed to COBOL_EBCDIC_File
+     lrecl    (0) = None | (1 n): what the runner passed to COBOL_EBCDIC_File.  With None or 0 the property is the same
+              (one row per record, each laid out by its own counters) for RECFM N, V, VB; RECFM F cannot cut the file and
+              must raise TypeError before delivering a row
      envs     one count vector ((counter-id value) ...) per record
      counters ((counter-id path) ...) where each live counter sits
      records  the byte strings the runner put into the file, in order
      blocking VB: number of records in each block
      image    the bytes of the file the implementation read (read back from disk by the runner)
      schema   (0 emitted-schema) | (1 exn)
-     run      (1 exn)                     set_schema raised
+     run      (1 exn)                     set_schema raised (a violation: lrecl None / 0 is legal with an ODO layout)
             | (0 (row ...) ending)        ending = (0) rows() ended | (1 exn) it raised | (2) runner stopped at its cap
      row      (buflen end head ((path obs) ...) ((counter-id cobs) ...))
                 buflen = len(row.instance); end = row.nav.location.end; head = row.instance[:end]
@@ -154,7 +156,8 @@ Definition judge (c : sx) : sx :=
   let Lr := match lrecl with Some n => n | None => 0%nat end in
   let chunks := cut (repeat Lr (length rs)) image in
   let image_ok :=
-    if recfm =? 3 then
+    if (recfm =? 3) && (Lr =? 0)%nat then true          (* no lrecl: nothing of the file is read *)
+    else if recfm =? 3 then
       (1 <=? Lr)%nat && (length image =? Lr * length rs)%nat
       && forall2b (fun r ch => (length ch =? Lr)%nat && list_N_eqb (firstn (length r) ch) r) rs chunks
     else if recfm =? 0 then list_N_eqb image (write_N rs) && legal_N B rs
@@ -178,7 +181,12 @@ Definition judge (c : sx) : sx :=
   let want_buflens :=
     if recfm =? 0 then map (fun off => Nat.min B (total - off)) (offsets 0 lens)
     else if recfm =? 3 then map (fun _ => Lr) lens else lens in
+  let no_lrecl := match lrecl with Some (S _) => false | _ => true end in
   let good :=
+    if (recfm =? 3) && no_lrecl && js_has_odo js then
+      (* RECFM F / FB without any record length (none given, none computable): refused with TypeError, no row delivered *)
+      (as_Z (nth_sx 0 run) =? 0) && sx_eqb obs_end (L [A 1; A 2]) && (length obs_rows =? 0)%nat
+    else
     (as_Z (nth_sx 0 run) =? 0)
     && sx_eqb obs_end (L [A 0])
     && (length obs_rows =? length rs)%nat
@@ -194,8 +202,7 @@ Definition judge (c : sx) : sx :=
         && forall2b (agree_row counters) mrows obs_rows
     end in
   let agree := schema_agrees && run_agrees in
-  let no_lrecl := match lrecl with Some (S _) => false | _ => true end in
-  let known := if no_lrecl && js_has_odo js then Some 1 else None in
+  let known : option Z := None in
   let branch :=
     if no_lrecl then 90 else
     10 * recfm + 1 + (if flat_odo t then 0 else 1) + (if (B <? total)%nat then 2 else 0) in
